@@ -11,7 +11,7 @@ import (
 )
 
 var repo = flag.String("repo", "/repo", "repository root")
-var allExtractors = []string{"wire", "classify", "sites", "boxconsts", "adapter"}
+var allExtractors = []string{"wire", "classify", "sites", "boxconsts", "adapter", "blocking"}
 
 var outDir = flag.String("out", "/verif/lean/TSSVerif/Gen", "output directory for generated Lean files")
 
@@ -37,6 +37,8 @@ func main() {
 			name, body = "BoxConsts", genBoxConsts()
 		case "adapter":
 			name, body = "Adapter", genAdapter()
+		case "blocking":
+			name, body = "Blocking", genBlocking()
 		default:
 			fmt.Fprintf(os.Stderr, "unknown extractor %q\n", w)
 			os.Exit(2)
